@@ -956,6 +956,23 @@ func C10(ctx *core.Ctx) error {
 		}
 	}
 	if ctx.Replay != "" {
+		var hsc c10HistScenario
+		if _, err := core.LoadReplay(ctx.Replay, &hsc); err == nil && hsc.Type != "" {
+			// in child processes of its own: the history, then the remote verifier
+			rs, err := c10HistRunAll([][]c10HistScenario{{hsc}}, 1)
+			if err != nil {
+				return core.Inconcl("replay %s: %v", hsc.key(), err)
+			}
+			r := rs[0][0]
+			if r.Inconcl != "" {
+				return core.Inconcl("replay %s: %s", hsc.key(), r.Inconcl)
+			}
+			fmt.Printf("replay %s: %d violation(s), outcomes %v, remote verifier %v, drift %v\n", hsc.key(), len(r.Viols), r.Outs, r.Remote, r.Drift)
+			for _, v := range r.Viols {
+				ctx.Report(v.Key, v.What, hsc)
+			}
+			return nil
+		}
 		var sc c10Scenario
 		if _, err := core.LoadReplay(ctx.Replay, &sc); err != nil {
 			return core.Inconcl("cannot load replay: %v", err)
@@ -979,8 +996,10 @@ func C10(ctx *core.Ctx) error {
 	var toyRes pcTraceResult
 	var toyErr error
 	var gen *pcToyGen
+	var hist *hPhase
 	var wg sync.WaitGroup
-	wg.Add(2)
+	wg.Add(3)
+	go func() { defer wg.Done(); hist = c10HistPhase(ctx, keys) }()
 	go func() { defer wg.Done(); mcGroups, mcErr = c10RunMC(ctx) }()
 	go func() {
 		defer wg.Done()
@@ -1027,6 +1046,10 @@ func C10(ctx *core.Ctx) error {
 			drifts++
 			ctx.Note("drift: scenario %s: %s", r.Sc.key(), strings.Join(r.Drift, "; "))
 		}
+	}
+	// call histories and object identity (spec/ProofsHist.tla, c10_hist.go)
+	if err := c10HistJudge(ctx, cov, hist); err != nil {
+		return err
 	}
 	for _, s := range pcSystems {
 		for _, r := range results {
@@ -1094,12 +1117,19 @@ func C10(ctx *core.Ctx) error {
 			"tss.ParseWireMessage), the parser, the real Verify again; distinct = distinct (row, parameter sets). Verdict: the real Verify returns true both times. "+
 			"states/transitions: TLC on spec/ProofsMC.tla (invariant Complete: equations hold for every witness, coin and challenge of the toy domains; honest proofs fail "+
 			"only slack guards and exactly in the stated gap; verdict; wire form). traces: toy-sized transcripts produced by the library's provers on toy curves and moduli, "+
-			"each explained by spec/Proofs_Trace.tla (value of every guard and equation, outcome of the real Verify incl. the predicted panics for a challenge of 0)",
+			"each explained by spec/Proofs_Trace.tla (value of every guard and equation, outcome of the real Verify incl. the predicted panics for a challenge of 0). "+
+			"Call histories and object identity (spec/ProofsHist.tla): further cases = histories of prove / verify calls generated by TLC (exhaustively for 4 calls: the directed ones; -simulate for 7 calls) "+
+			"with session buffers allocated or rewritten in place, statement objects of their own or overwritten in place, everything the verifier receives in memory / re-created from bytes with the prover's, "+
+			"fresh or registry curve handles, replayed at real size sequentially in child processes, every item also verified in another process; and the rows of the handle catalogue (origin of the curve handle "+
+			"per role); verdict: every honest verification returns true. The spec's defect variants (memoised tag keeping the caller's slice / keyed by identity / by a prefix, statement cache by object identity, "+
+			"handle comparison) are emulated around the real Schnorr proof and must give the model's outcomes call by call (counted in traces)",
 		cov, []string{
 			"the five vendored parameter sets of test/_ecdsa_fixtures (Paillier keys with factors, ring-Pedersen parameters with their trapdoors)",
 			"completeness holds up to the gap characterised by ProofsMC.tla (probability about 2^-256 .. 2^-512 at real size): not reachable by the real-size scenarios",
 			"the Fiat-Shamir challenge is an oracle input of the specification; the harness's transcription of the verifier derives it with the library's exported hash functions (a disagreement with the real verifier is recorded as drift, never a violation)",
 			"the Paillier key proof cannot run below 250 bit moduli (its challenges are 256 bit blocks that must be below N): its toy lines carry the twin's verdict only",
 			"panics are recovered in the calling goroutine; the verifiers that start goroutines (modproof, paillier) do not panic inside them on these inputs",
-		}, "java tlc2.TLC ProofsMC.tla / ProofsGen.tla / Proofs_Trace.tla")
+			"histories: hidden state of the library is per process; a history runs in a child process in which nothing else calls the library, but the histories of one batch follow each other in the same process",
+			"the proof systems of the MtA protocol, the factor proof and the Paillier key proof are also run with edwards25519 as the curve argument / public key curve (the library's protocols use them with secp256k1 only)",
+		}, "java tlc2.TLC ProofsMC.tla / ProofsGen.tla / Proofs_Trace.tla / ProofsHist.tla (exhaustive and -simulate)")
 }
